@@ -145,6 +145,9 @@ structure Base where
   strict : Bool := false
   /-- why the history left the contract -/
   why : String := ""
+  /-- `reset_address()` hit the peripheral whose request is in flight or whose event is uncollected:
+  the DP properties C03 / C08 / C14 do not speak about what follows (C04 and C05 still do) -/
+  tainted : Bool := false
   cfg : OCfg := {}
   operate : Bool := false
   /-- address a reply is outstanding from, with the request -/
@@ -166,6 +169,7 @@ inductive Seen
   | take (cc : Bool) (ev : Option (Nat × Nat × String))
   | piq (slot : Nat) (bs : Bytes) (ok : Bool)
   | diagreq (slot : Nat)
+  | resetaddr (slot : Nat) (addr : Nat)
   | user
   | broken (what : String)
   | skip
@@ -282,6 +286,22 @@ def baseStep (b : Base) (w : List String) (obs : String) : Base × Seen × List 
     match slot.toNat?, hexToBytes hex with
     | some i, some bs => (b1, .piq i bs (head == "ok"), views)
     | _, _ => (b1, .skip, views)
+  | ["dp.resetaddr", slot, addr] =>
+    match slot.toNat?, addr.toNat? with
+    | some i, some a =>
+      if head != "ok" then (b1, .user, views) else
+      let ps' := (List.range b.cfg.ps.length).map fun j =>
+        let p := b.cfg.ps.getD j default
+        if j = i then { p with addr := a } else p
+      let c := { b.cfg with ps := ps' }
+      let inFlight := match b.outstanding with
+        | some (o, _) => (b.cfg.ps.getD i default).addr == o
+        | none => false
+      -- the request in flight no longer belongs to the (freshly reset) peripheral
+      let out' := if inFlight then b.outstanding.map fun (o, _) => (o, none) else b.outstanding
+      ({ b1 with cfg := c, inContract := b.inContract && addrOk c, outstanding := out',
+                 tainted := b.tainted || inFlight || b.dirty }, .resetaddr i a, views)
+    | _, _ => (b1, .skip, views)
   | ["dp.diagreq", slot] =>
     match slot.toNat? with
     | some i => (b1, if head == "ok" then .diagreq i else .user, views)
@@ -313,7 +333,7 @@ abbrev Verdict := Option (String × String)
 
 /-- Generic wrapper: run the shared front end, then the property-specific part (only while the
 history is inside the contract). -/
-def withBase {σ : Type} (pid clause : String) (f : Base → Base → Seen → List PView → σ → σ × Verdict)
+def withBase {σ : Type} (pid clause : String) (tolerant : Bool := false) (f : Base → Base → Seen → List PView → σ → σ × Verdict)
     (reset : σ → σ) (st : Base × σ) (op obs : String) : (Base × σ) × Verdict :=
   let w := splitWords op
   let (b, s) := st
@@ -326,6 +346,7 @@ def withBase {σ : Type} (pid clause : String) (f : Base → Base → Seen → L
     if b.strict && b.inContract && !b'.inContract && addrOk b'.cfg then
       ((b', s), some (pid, s!"{clause}: the FDL layer broke the callback contract: {b'.why}")) else
     if !b.inContract || !b'.inContract then ((b', s), none) else
+    if b'.tainted && !tolerant then ((b', s), none) else
     let (s', v) := f b b' seen views s
     ((b', s'), v)
 
@@ -410,7 +431,7 @@ def oracle3 (_b b' : Base) (seen : Seen) (views : List PView) (o : O3) : O3 × V
     | _, _ => (resetDead o views, none)
   | _ => (resetDead o views, none)
 
-def oracleC03 := withBase "C03" "dx_only_when_ready (bring-up is judged on replies of the addressed peripheral)" oracle3 (fun _ => ({} : O3))
+def oracleC03 := withBase "C03" "dx_only_when_ready (bring-up is judged on replies of the addressed peripheral)" false oracle3 (fun _ => ({} : O3))
 
 /-! ### C04 — process images -/
 
@@ -483,7 +504,7 @@ def oracle4 (b b' : Base) (seen : Seen) (views : List PView) (o0 : O4) : O4 × V
   | .reply _ _ none => ({ o with pend := none }, none)
   | _ => (o, none)
 
-def oracleC04 := withBase "C04" "no_cross_talk / wrong source" oracle4 (fun _ => ({} : O4))
+def oracleC04 := withBase "C04" "no_cross_talk / wrong source" true oracle4 (fun _ => ({} : O4))
 
 /-! ### C08 — frame count bit and retries -/
 
@@ -586,9 +607,11 @@ def oracle8 (b b' : Base) (seen : Seen) (views : List PView) (o : O8) : O8 × Ve
     | none, none => (o1, none)
   | .broken what => fail o s!"fcb_never_inactive / no panic: {what}"
   | .diagreq slot => (setA8 o slot { a8Of o slot with diagReq := true }, none)
+  -- a peripheral that was reset starts up again
+  | .resetaddr slot _ => (setA8 { o with due := if o.due = some slot then none else o.due } slot {}, none)
   | _ => (o, none)
 
-def oracleC08 := withBase "C08" "retry discipline (one reply or time-out per request)" oracle8 (fun _ => ({} : O8))
+def oracleC08 := withBase "C08" "retry discipline (one reply or time-out per request)" false oracle8 (fun _ => ({} : O8))
 
 /-! ### C14 — cycles and events -/
 
@@ -713,8 +736,23 @@ def oracle14 (b b' : Base) (seen : Seen) (views : List PView) (o : O14) : O14 ×
         | none => (o2, none)
     else (o1, none)
   | .broken what => fail o s!"turn_ends: {what}"
+  -- the user reset the peripheral: it is offline again, silently
+  | .resetaddr slot _ => ({ setLc o slot 0 with justTaken := false, idle := o.idle.set slot 0 }, none)
   | _ => ({ o with justTaken := false }, none)
 
-def oracleC14 := withBase "C14" "turn_order (a turn ends with the reply of the addressed peripheral)" oracle14 (fun _ => ({} : O14))
+def oracleC14 := withBase "C14" "turn_order (a turn ends with the reply of the addressed peripheral)" false oracle14 (fun _ => ({} : O14))
+
+/-! ### C05 on the `dp` engine: no panic, no non-returning call on any history inside the contract
+
+The `dp` engine also generates histories *outside* the FDL contract (a token handed to
+`receive_reply`, callbacks nobody waits for, over-long user parameters the encoder asserts on,
+`add` beyond the capacity) whose panics are documented; those are filtered by the shared front end
+exactly as for C04. -/
+def oracle5 (_b _b' : Base) (seen : Seen) (_views : List PView) (o : Unit) : Unit × Verdict :=
+  match seen with
+  | .broken what => (o, some ("C05", s!"a panic / non-returning call inside the DP master attached to the FDL station: {what}"))
+  | _ => (o, none)
+
+def oracleC05dp := withBase "C05" "poll() is total with the DP master attached" true oracle5 (fun _ => ())
 
 end PV.Driver
